@@ -10,7 +10,7 @@ PROP = {'areas': [{'area': 'engine',
                        'corpus/engine/d9_connack_before_connect_flushed.script'],
             'extra': ['100'],
             'only_prop': 'C18',
-            'quick': 4000,
+            'quick': 12000,
             'thorough': 2000000,
             'tie_fields': ['done', 'tmo', 'ops', 'nst', 'ppub', 'pnon']}],
  'coq_target': 'Properties/C18.vo',
